@@ -35,7 +35,7 @@ PROGRAMS = list(PROGRAMS) + [  # primitives in tight layouts: literals touching 
     "match s:\n case {**rest}: pass\n case [*star] if star: pass\n case p.q as r: pass\n case None: pass",
 ]
 N_SHARED13 = len(PROGRAMS) - 4
-PROG_IDX = tuple(range(0, 40)) + tuple(range(N_SHARED13, N_SHARED13 + 4))
+PROG_IDX = tuple(range(0, 40)) + (50, 51) + tuple(range(N_SHARED13, N_SHARED13 + 4))
 PROG_IDX_T = PROG_IDX
 D2 = (0, 1, 3, 7, 10, 11, 15, 16, 20, 22, 23, 28)
 
